@@ -515,7 +515,7 @@ func c02r5(r *R) {
 				if call, ok := i.(*ssa.Call); ok && calleeName(&call.Call) == "fmt.Sprintf" {
 					f, _ := constString(call.Call.Args[0])
 					els := variadicElems(call.Call.Args[1])
-					o4.AtI(i).Check(f == "%02d" && len(els) == 1 && c.Expr(els[0]) == "builtin.min(p0, 99)", "%s renders %q of %v, want %%02d of min(x, 99)", t, f, els)
+					o4.AtI(i).Check(f == "%02d" && len(els) == 1 && c.Expr(els[0]) == "min(99, p0)", "%s renders %q of %v, want %%02d of min(x, 99)", t, f, els)
 				}
 			})
 		}
